@@ -283,6 +283,33 @@ fn three_d(rng: &mut Rng) {
         o.fs(jp.as_slice());
         emit("jac.row3", &i, &o, &v);
     }
+    // point-to-point rows for pairs that are close together (3e-8 … 0.1 apart: a converged alignment has many of
+    // them).  |p − c| is differentiable wherever p ≠ c, with derivative n · ∂p/∂x_k, n the unit vector from c to p;
+    // ∂p/∂x_k is taken by central differences of the moved POINT (smooth everywhere), so the oracle does not
+    // share the row's own small-distance guard (the code zeroes the row only below 1e-8)
+    {
+        let dir = Vector3::new(rng.gauss(), rng.gauss(), rng.gauss() + 1e-3).normalize();
+        let sep = 10f64.powf(rng.range(-7.5, -1.0));
+        let c = moved - dir * sep;
+        let jq = point_point_jacobian(&moved, &c, &p1);
+        let n = (moved - c).normalize();
+        let mut v = Verdict::new();
+        let h = 1e-6;
+        let t_i = p1.transform().inverse();
+        for k in 0..6 {
+            let mut xp = x;
+            let mut xm = x;
+            xp[k] += h;
+            xm[k] -= h;
+            let (mut pp, mut pm) = (p1.clone(), p1.clone());
+            pp.set(&xp);
+            pm.set(&xm);
+            let dp = ((pp.transform() * t_i) * moved - (pm.transform() * t_i) * moved) / (2.0 * h);
+            let want = n.dot(&dp);
+            v.require((want - jq[k]).abs() <= 1e-5 * (1.0 + cs + want.abs()), "jacobian3.point_point_is_derivative_for_close_pairs", || format!("separation {sep:e}, k={k}: analytic {} expected {want}", jq[k]));
+        }
+        emit_oracle_only("jac.close_pairs3", &Tok::new(), &Tok::new(), &v);
+    }
     // the multi-entity handler keeps the initial isometries
     {
         let inits: Vec<Iso3> = (0..3).map(|_| gen::iso3(rng, 5.0)).collect();
